@@ -17,6 +17,39 @@ CHECKS = {
              "search by named guards and demonstrated by stored replays.",
         tech=TECH % ("", "oracle = byte-array reference model, op by op and after restart"),
     ),
+    "C12": dict(
+        profile="ddmap", cat="exploration", ref="DESIGN.md section 4 C12",
+        text="Seeded search over create/delete/duplicate/reuse/search/count/new-ref histories (descriptor-block sizes "
+             "1..40 odd and even, caching on/off and toggled mid-session, refs at 1/65535 and after wrap, 1-2 clients, "
+             "restarts) against a map (tag,ref)->bytes: set equality through Hfind in both directions, exact counts, "
+             "freshness of every issued ref, content after reopen. 12 000 (quick) / 200 000 (thorough) histories.",
+        note="Trusts the map model; descriptors the library creates for itself are excluded by tag; exhaustion of all "
+             "65535 refs of one tag is not reached.",
+        tech=TECH % ("", "oracle = map reference model incl. enumeration and allocation invariants"),
+    ),
+    "C16": dict(
+        profile="iofault", cat="fault_enumeration", ref="DESIGN.md section 4 C16",
+        text="For each generated H/V/VS/GR/AN program the fault-free I/O trace is enumerated: every stdio event x "
+             "every applicable fault kind (EIO, short count, ENOSPC-from-here-on, sticky stream error, open failure; "
+             "write-through and buffered stdio models) is injected in its own child. Oracle: no crash/hang/ASan/"
+             "closed-stream use; if every call incl. the closes succeeded then files and read results equal the "
+             "fault-free run. Exhaustive per program, sampled over programs (96 quick / 1600 thorough).",
+        note="Single faults plus their sticky/ENOSPC continuation; allocation failure not injected. The SD layer is "
+             "kept out of the search by a guard (known findings with stored replays); after a reported failure the "
+             "torn file is not opened again.",
+        tech=TECH % (", fault plans", "exhaustive single-fault enumeration over the recorded I/O trace, differential oracle against the fault-free run"),
+    ),
+    "C17": dict(
+        profile="crash", cat="fault_enumeration", ref="DESIGN.md section 4 C17",
+        text="Base file + append-only session; the simulated disk logs the session's ordered physical writes; EVERY "
+             "prefix (all prefixes for H/Vdata/Vgroup-only sessions, prefixes before the first flushing call for "
+             "sessions that also add SDS/images/annotations) is materialised and verified in a fresh child: it opens "
+             "and every pre-existing object reads back as from the base. Also: no pre-flush write below the old "
+             "logical end of file. Exhaustive per session, sampled over sessions (260 quick / 4000 thorough).",
+        note="Atomic ordered writes as the property states (no torn/reordered writes); default descriptor caching; "
+             "objects of the interrupted session are not examined.",
+        tech=TECH % (", crash points", "exhaustive crash-prefix enumeration over the write log, differential oracle against the base file"),
+    ),
 }
 
 NOT_APPLICABLE = {
